@@ -64,6 +64,8 @@ def check(chk, fx):
     cexrules.buf(chk, fx)             # the three buffer classes: begin / end / get_view mean the same slice
     from .. import primrules
     primrules.prims(chk, fx, "BUFIT", "UTIL")
+    from .. import gramrules
+    gramrules.check(chk, fx)          # how a pattern is read decides what each regex term matches
     from .. import deporder, goldenreg as _gr
     deporder.group(chk, fx, "DEPORD", "dependence order of statements (lexer construction and matching)", _gr.DEP_GROUPS["LEX"])
     from .. import width
